@@ -41,10 +41,13 @@ var _ Pass = (*InlineObjectsWithTypes)(nil)
 type InlineObjectsWithTypes struct {
 	InlineTypes     []ast.Kind
 	objectsToInline *orderedmap.Map[string, ast.Type]
+	// references being inlined: inlined objects can refer to each other, or to themselves
+	inlining map[string]struct{}
 }
 
 func (pass *InlineObjectsWithTypes) Process(schemas []*ast.Schema) ([]*ast.Schema, error) {
 	pass.objectsToInline = orderedmap.New[string, ast.Type]()
+	pass.inlining = make(map[string]struct{})
 
 	for _, schema := range schemas {
 		schema.Objects.Iterate(func(_ string, object ast.Object) {
@@ -83,12 +86,28 @@ func (pass *InlineObjectsWithTypes) Process(schemas []*ast.Schema) ([]*ast.Schem
 	return newSchemas, nil
 }
 
-func (pass *InlineObjectsWithTypes) processRef(_ *Visitor, _ *ast.Schema, def ast.Type) (ast.Type, error) {
-	if !pass.objectsToInline.Has(def.Ref.String()) {
+func (pass *InlineObjectsWithTypes) processRef(visitor *Visitor, schema *ast.Schema, def ast.Type) (ast.Type, error) {
+	ref := def.Ref.String()
+	if !pass.objectsToInline.Has(ref) {
 		return def, nil
 	}
 
-	typeDef := pass.objectsToInline.Get(def.Ref.String()).DeepCopy()
+	if _, found := pass.inlining[ref]; found {
+		// the object is defined in terms of itself (`A: [...A]`): it can't be
+		// inlined within itself and won't exist anymore after this pass.
+		recursiveType := ast.Any()
+		recursiveType.AddToPassesTrail(fmt.Sprintf("InlineObjectsWithTypes[recursive=%s]", ref))
+
+		return recursiveType, nil
+	}
+	pass.inlining[ref] = struct{}{}
+	defer delete(pass.inlining, ref)
+
+	// the inlined type can itself refer to objects that have to be inlined
+	typeDef, err := visitor.VisitType(schema, pass.objectsToInline.Get(ref).DeepCopy())
+	if err != nil {
+		return ast.Type{}, err
+	}
 	if def.Nullable {
 		// the reference being inlined was nullable (optional field, ...)
 		typeDef.Nullable = true
